@@ -267,3 +267,15 @@ Proof.
       * exfalso. assert (H : Reg x) by (apply Reg_iff; eauto). apply Reg_pos in H.
         destruct Eab as (H1 & _). destruct Ec as (H2 & _). lia.
 Qed.
+
+(* ------------------------------------------------------------------ everything at once *)
+Theorem history_all s0 ops :
+  Inv s0 -> Forall (adm_op s0) ops ->
+  exists s, run s0 ops = Ok s /\ Inv s /\ held s = run_spec (held s0) ops /\
+            nevents s = zlen (held s) /\ particle_list s = Ok (plist_spec s).
+Proof.
+  intros HI Ha. destruct (run_Inv s0 ops s0 HI Ha eq_refl eq_refl) as (s & Hr & Is & Hh & _).
+  exists s. repeat split; try assumption.
+  - now destruct (counts_Inv s Is).
+  - now apply plist_Inv.
+Qed.
